@@ -54,7 +54,7 @@ _WEIGHT = {"var": 5, "std": 5, "sum": 3, "mean": 3, "prod": 3, "max": 4, "min": 
            "transpose": 2, "reshape": 2, "squeeze": 2, "where": 2, "clip": 2, "concatenate": 2, "stack": 2, "power": 2}
 WEIGHTED_NAMES = [n for n in ALL_NAMES for _ in range(_WEIGHT.get(n, 1))]
 
-LAYOUTS = [None, None, None, "F", "neg", "sliced", "bcast", "relaxed", "offset"]
+LAYOUTS = [None, None, "F", "F", "T", "neg", "sliced", "bcast", "relaxed", "offset"]
 
 
 def _seed(draw, shape):
